@@ -19,11 +19,45 @@ def load_catalog():
         ns = {}
         exec(open(f).read(), ns)
         cat.extend(ns.get("VARIANTS", []))
+    # the seeded changes kept from the sub-agent rounds: applied to scratch copies of the touched files only
+    for d in sorted(glob.glob(os.path.join(VERIF, "seeded", "C*m[0-9]"))):
+        try:
+            meta = json.load(open(os.path.join(d, "meta.json")))
+        except (OSError, ValueError):
+            continue
+        cat.append({"id": "seed-" + os.path.basename(d), "property": meta.get("property", os.path.basename(d)[:3]),
+                    "expect": "alarm", "patch": os.path.join(d, "patch.diff")})
     return cat
 
+def overlay_from_patch(patch, workdir):
+    files = []
+    for line in open(patch):
+        if line.startswith("+++ b/"):
+            files.append(line[6:].strip())
+    d = tempfile.mkdtemp(prefix="zsp-", dir=workdir)
+    try:
+        for f in files:
+            src = os.path.join(REPO, f)
+            dst = os.path.join(d, f)
+            os.makedirs(os.path.dirname(dst), exist_ok=True)
+            if os.path.exists(src):
+                shutil.copy(src, dst)
+        r = subprocess.run(["patch", "-p1", "-s", "-f", "--no-backup-if-mismatch", "-d", d, "-i", patch], capture_output=True, text=True)
+        if r.returncode != 0:
+            return None, "patch does not apply to the current tree"
+        return {os.path.join(REPO, f): open(os.path.join(d, f)).read() for f in files if os.path.exists(os.path.join(d, f))}, ""
+    finally:
+        shutil.rmtree(d, ignore_errors=True)
+
 def run_variant(v, workdir):
-    edits = v["edits"] if "edits" in v else [{"file": v["file"], "old": v["old"], "new": v["new"]}]
     overlay = {}
+    if "patch" in v:
+        overlay, why = overlay_from_patch(v["patch"], workdir)
+        if overlay is None:
+            return ("skip", why)
+        edits = []
+    else:
+        edits = v["edits"] if "edits" in v else [{"file": v["file"], "old": v["old"], "new": v["new"]}]
     for e in edits:
         path = os.path.join(REPO, e["file"])
         src = overlay.get(path)
@@ -65,9 +99,11 @@ def main():
     ap.add_argument("-k", default="")
     ap.add_argument("-j", type=int, default=4)
     ap.add_argument("--json", default="")
+    ap.add_argument("--no-seeds", action="store_true")
+    ap.add_argument("--quiet", action="store_true")
     a = ap.parse_args()
     subprocess.run([os.path.join(VERIF, "check.sh"), "--build"], check=True)
-    cat = [v for v in load_catalog() if (not a.p or v["property"] == a.p) and (a.k in v["id"])]
+    cat = [v for v in load_catalog() if (not a.p or v["property"] == a.p) and (a.k in v["id"]) and not (a.no_seeds and "patch" in v)]
     work = tempfile.mkdtemp(prefix="zenoselftest-")
     res = {}
     with concurrent.futures.ThreadPoolExecutor(max_workers=a.j) as ex:
@@ -81,11 +117,13 @@ def main():
         st, msg = res[v["id"]]
         if st in ("MISS", "FALSE-ALARM"):
             bad += 1
-        print("%-12s %s %-44s %s" % (st, v["property"], v["id"], msg))
+        if not a.quiet or st in ("MISS", "FALSE-ALARM"):
+            print("%-12s %s %-44s %s" % (st, v["property"], v["id"], msg))
     n = len(cat)
     print("selftest: %d variants, %d ok, %d skipped, %d wrong" % (n, sum(1 for s, _ in res.values() if s == "ok"), sum(1 for s, _ in res.values() if s == "skip"), bad))
     if a.json:
-        json.dump({k: list(v) for k, v in res.items()}, open(a.json, "w"), indent=1)
+        kinds = {v["id"]: ("seeded" if "patch" in v else v.get("expect", "alarm")) for v in cat}
+        json.dump({k: list(v) + [kinds[k]] for k, v in res.items()}, open(a.json, "w"), indent=1)
     sys.exit(1 if bad else 0)
 
 if __name__ == "__main__":
